@@ -158,7 +158,7 @@ class Recorder:
         return s
 
     def worker_delay(self, hid, phase):
-        if os.getpid() != self.pid and hid in self.delays and self.delays[hid][phase] > 0:
+        if os.getpid() != self.pid and hid in self.delays and len(self.delays[hid]) > phase and self.delays[hid][phase] > 0:
             import time
             time.sleep(self.delays[hid][phase])
 
@@ -491,6 +491,28 @@ def install(recorder):
                          outargs=[REC.hid(h) for h in self._event_handlers_list if h.number_send_out_state_arguments])
             return _start_processes
         wrap(MultiProcessMediator, "_start_processes", mk_start)
+
+        # worker side: a harness-chosen pause after the worker released the semaphore (phase 2), i.e. between two of its
+        # synchronisation operations -- the mediator may run a whole leg in between
+        import jellyfysh.mediator.multi_process_mediator.multi_process_mediator as mpm
+        orig_rip = mpm.run_in_process
+
+        class PausingSemaphore:
+            def __init__(self, inner, hid):
+                self.inner, self.hid = inner, hid
+
+            def acquire(self, *a, **k):
+                return self.inner.acquire(*a, **k)
+
+            def release(self):
+                self.inner.release()
+                REC.worker_delay(self.hid, 2)
+
+        @functools.wraps(orig_rip)
+        def run_in_process(self, pipe, start_event, continue_event, start_or_continue_event, semaphore):
+            return orig_rip(self, pipe, start_event, continue_event, start_or_continue_event,
+                            PausingSemaphore(semaphore, REC.hid(self)))
+        mpm.run_in_process = run_in_process
     except Exception:
         pass
 
